@@ -1,5 +1,5 @@
 """C01 — print -> parse identity (XML, JSON, LYB)."""
-from checks import textcomp, rtcomp
+from checks import textcomp, rtcomp, rtxcomp
 
 LEAN_TARGETS = ["LyModel.Props.C01"]
 AUDIT = "Audit/C01.lean"
@@ -12,9 +12,12 @@ TRUSTED = ["Python renderers in tools/checks/rtcomp.py as the independent XML / 
 def classify(component, what, case):
     if component == "rt":
         return rtcomp.classify(component, what, case)
+    if component == "rtx":
+        return rtxcomp.classify(component, what, case)
     return None
 
 
 def run(cx):
     textcomp.run_text(cx, want=("xml", "json"), law=("roundtrip",))
     rtcomp.run_rt(cx, laws=("roundtrip",))
+    rtxcomp.run_rtx(cx, laws=("roundtrip",))
